@@ -445,9 +445,18 @@ def run_file(spec, res, d, h, f, ioapi):
                 atol = 0.0
                 a_ = np.abs(np.asarray(vs.data, 'f8'))
                 a_ = a_[a_ > 0]
+                # (also long axes of moderate values: numpy multiplies
+                # in several lanes, so the lanes that do not hold the zero
+                # overflow and 0 * inf is nan - 0 x 1 x ... x 1006 in
+                # float32)
+                lg_ = np.log(a_) if a_.size else np.zeros(0)
                 if a_.size and (a_.min() < np.sqrt(float(np.finfo(vdt).tiny))
                                 or a_.max() > np.sqrt(float(
-                                    np.finfo(vdt).max))):
+                                    np.finfo(vdt).max))
+                                or lg_[lg_ > 0].sum() > np.log(float(
+                                    np.finfo(vdt).max))
+                                or -lg_[lg_ < 0].sum() > -np.log(float(
+                                    np.finfo(vdt).tiny))):
                     # running products of such values pass through the
                     # denormal range / overflow in the variable's own
                     # precision: no single right answer
